@@ -284,3 +284,232 @@ Section PeriodFacts.
     - symmetry. apply zsum_all_zero. intros c Hc. rewrite (Hev c Hc), Ee. reflexivity.
   Qed.
 End PeriodFacts.
+
+(* ================================================================== 4. window assignment *)
+Section WindowFacts.
+  Variable step : Z -> Z.
+  Hypothesis step_up : forall x, x < step x.
+
+  (* soundness of the advance loop, whatever the fuel *)
+  Lemma walk_up_sound : forall fuel cur first c,
+    walk_up step fuel cur first = Some c ->
+    exists n, c = iter n step cur /\ first <= step c /\ (cur < first -> c < first) /\ cur <= c.
+  Proof.
+    induction fuel as [|f IH]; intros cur first c; cbn [walk_up]; [discriminate|].
+    destruct (step cur <? first) eqn:E.
+    - intros H. destruct (IH _ _ _ H) as (n & E1 & A & B & C). pose proof (step_up cur).
+      exists (S n). rewrite iter_succ_r. repeat split; auto; try lia; try (intros _; apply B; lia).
+    - intros H. inversion H. subst. exists O. cbn. repeat split; auto; lia.
+  Qed.
+
+  Fixpoint ps_nondecr (l : list cell) : Prop :=
+    match l with
+    | c1 :: ((c2 :: _) as r) => ps c1 <= ps c2 /\ ps_nondecr r
+    | _ => True
+    end.
+
+  Lemma ps_nondecr_head : forall r c, ps_nondecr (c :: r) -> forall c', In c' r -> ps c <= ps c'.
+  Proof.
+    induction r as [|c2 r IH]; intros c Hs c' Hc'; [destruct Hc'|]. destruct Hs as [Hle Hs].
+    destruct Hc' as [->|Hc']; [exact Hle|]. specialize (IH c2 Hs c' Hc'). lia.
+  Qed.
+
+  (* every cell of a period-sorted list is relabelled with the window (g, step g] of the grid
+     (g = step^n init) that holds its period start, and its period end lies inside that window *)
+  Theorem relabel_windows fuel : forall cells init out,
+    relabel step fuel init cells = Ok out -> ps_nondecr cells ->
+    (forall c, In c cells -> init < ps c) ->
+    Forall2 (fun c o => exists n, let g := iter n step init in
+                        ps o = g + 1 /\ pe o = step g /\ g < ps c <= step g /\ pe c <= step g /\
+                        ev o = ev c /\ cmeta o = cmeta c /\ cvals o = cvals c) cells out.
+  Proof.
+    induction cells as [|c r IH]; intros init out; cbn [relabel].
+    - intros H _ _. inversion H. constructor.
+    - destruct (walk_up step fuel init (ps c)) as [i'|] eqn:Ew; [|discriminate].
+      destruct (step i' <? pe c) eqn:E; [discriminate|].
+      destruct (relabel step fuel i' r) as [rest|] eqn:Er; [|discriminate].
+      intros H Hs Hi. inversion H. subst out. clear H.
+      destruct (walk_up_sound _ _ _ _ Ew) as (n & En & A & B & C).
+      specialize (B (Hi c (or_introl eq_refl))).
+      constructor.
+      + exists n. cbv zeta. rewrite <- En. cbn. repeat split; auto; lia.
+      + assert (Hs' : ps_nondecr r) by (destruct r; [exact I | apply Hs]).
+        assert (Hi' : forall c', In c' r -> i' < ps c').
+        { intros c' Hc'. pose proof (ps_nondecr_head _ _ Hs c' Hc'). lia. }
+        specialize (IH i' rest Er Hs' Hi').
+        eapply Forall2_weaken; [|exact IH]. intros c' o' (m & Hm). cbv zeta in Hm.
+        exists (m + n)%nat. cbv zeta.
+        assert (iter (m + n) step init = iter m step i') as ->; [|exact Hm].
+        rewrite En. clear. induction m as [|m IHm]; [reflexivity|]. cbn [Nat.add iter]. now rewrite IHm.
+  Qed.
+End WindowFacts.
+
+(* ================================================================== 5. month grid (bounded) *)
+(* month ids 0..1571 = 1970-01 .. 2100-12 *)
+Fixpoint all_ids (n : nat) (i : Z) (p : Z -> bool) : bool :=
+  match n with O => true | S k => p i && all_ids k (i + 1) p end.
+Lemma all_ids_spec n : forall i p, all_ids n i p = true -> forall j, i <= j < i + Z.of_nat n -> p j = true.
+Proof.
+  induction n as [|n IH]; intros i p H j Hj; [lia|]. cbn [all_ids] in H. apply andb_prop in H. destruct H as [H0 H].
+  destruct (Z.eq_dec j i) as [->|Hne]; [exact H0|]. apply (IH (i + 1) p H). lia.
+Qed.
+Definition month_id_ok (i : Z) : bool :=
+  (month_id (month_end i) =? i) && is_month_end (month_end i) && (month_end i <? month_end (i + 1))
+  && (month_id (month_start i) =? i) && (month_start i <=? month_end i).
+Lemma month_ids_ok : all_ids 1572 0 month_id_ok = true.
+Proof. vm_compute. reflexivity. Qed.
+
+Lemma month_end_facts i : 0 <= i <= 1571 ->
+  month_id (month_end i) = i /\ is_month_end (month_end i) = true /\ month_end i < month_end (i + 1)
+  /\ month_id (month_start i) = i /\ month_start i <= month_end i.
+Proof.
+  intros Hi. pose proof (all_ids_spec _ _ _ month_ids_ok i ltac:(lia)) as H. unfold month_id_ok in H.
+  rewrite !andb_true_iff in H. lia.
+Qed.
+(* resolution_delta on a month end of 1970-2100 is the month end k months later *)
+Theorem addm_month_end i k : 0 <= i <= 1571 -> addm (month_end i) k = month_end (i + k).
+Proof.
+  intros Hi. destruct (month_end_facts i Hi) as (E1 & E2 & _). unfold addm. now rewrite E1, E2.
+Qed.
+Theorem month_end_increasing i j : 0 <= i -> j <= 1572 -> i < j -> month_end i < month_end j.
+Proof.
+  intros Hi Hj Hlt. replace j with (i + 1 + Z.of_nat (Z.to_nat (j - i - 1))) by lia.
+  assert (Hb : i + 1 + Z.of_nat (Z.to_nat (j - i - 1)) <= 1572) by lia. revert Hb.
+  generalize (Z.to_nat (j - i - 1)). intros n. induction n as [|n IH]; intros Hb.
+  - replace (i + 1 + Z.of_nat 0) with (i + 1) by lia. apply month_end_facts. lia.
+  - specialize (IH ltac:(lia)).
+    pose proof (month_end_facts (i + 1 + Z.of_nat n) ltac:(lia)) as (_ & _ & H & _).
+    replace (i + 1 + Z.of_nat (S n)) with (i + 1 + Z.of_nat n + 1) by lia. lia.
+Qed.
+(* consecutive windows: the window after month end i of length q months is
+   [month_start (i+1), month_end (i+q)] = [month_end i + 1 day, addm (month_end i) q] *)
+Theorem month_window i q : 0 <= i <= 1571 -> 1 <= q ->
+  delta (RMonth q) false (month_end i) = month_end (i + q) /\
+  delta (RMonth q) true (month_end i) = month_end (i - q) /\
+  month_end i + 1 = month_start (i + 1).
+Proof.
+  intros Hi Hq. cbn [delta]. rewrite !addm_month_end by lia. repeat split; try (f_equal; lia).
+  unfold month_end. lia.
+Qed.
+
+(* ================================================================== 6. sorted(cells, key=coordinates) *)
+Definition cle (a b : cell) : Prop := coord_ltb b a = false.
+Fixpoint cle_sorted (l : list cell) : Prop :=
+  match l with
+  | c1 :: ((c2 :: _) as r) => cle c1 c2 /\ cle_sorted r
+  | _ => True
+  end.
+Lemma coord_ltb_asym a b : coord_ltb a b = true -> coord_ltb b a = false.
+Proof. unfold coord_ltb. lia. Qed.
+Lemma coord_insert_sorted x : forall l, cle_sorted l -> cle_sorted (coord_insert x l).
+Proof.
+  induction l as [|y l IH]; intros Hs; [exact I|]. cbn [coord_insert].
+  destruct (coord_ltb x y) eqn:E.
+  - split; [now apply coord_ltb_asym | exact Hs].
+  - destruct l as [|z l'].
+    + cbn [coord_insert]. split; [exact E | exact I].
+    + destruct Hs as [Hyz Hs]. specialize (IH Hs). cbn [coord_insert] in IH |- *.
+      destruct (coord_ltb x z) eqn:E2.
+      * split; [exact E | exact IH].
+      * split; [exact Hyz | exact IH].
+Qed.
+Lemma sort_coords_sorted l : cle_sorted (sort_coords l).
+Proof. unfold sort_coords. induction l as [|x l IH]; [exact I|]. cbn [fold_right]. now apply coord_insert_sorted. Qed.
+Lemma cle_sorted_ps : forall l, cle_sorted l -> ps_nondecr l.
+Proof.
+  induction l as [|a l IH]; intros H; [exact I|]. destruct l as [|b l']; [exact I|].
+  destruct H as [Hab H]. split; [|now apply IH]. unfold cle, coord_ltb in Hab. lia.
+Qed.
+Theorem sort_coords_ps_nondecr l : ps_nondecr (sort_coords l).
+Proof. apply cle_sorted_ps, sort_coords_sorted. Qed.
+Lemma coord_insert_In x c l : In c (coord_insert x l) <-> c = x \/ In c l.
+Proof.
+  induction l as [|y l IH]; cbn [coord_insert In]; [intuition|].
+  destruct (coord_ltb x y); cbn [In]; [intuition|]. rewrite IH. intuition.
+Qed.
+Lemma sort_coords_In c l : In c (sort_coords l) <-> In c l.
+Proof.
+  unfold sort_coords. induction l as [|x l IH]; [reflexivity|]. cbn [fold_right In].
+  rewrite coord_insert_In, IH. intuition.
+Qed.
+
+(* ================================================================== 7. _aggregate_period as a whole *)
+Section PeriodSpec.
+  Variable wavg : transform -> list value -> list value -> result value.
+  Variable rules : rule_table.
+  Variable nl : list str.
+  Variable r : resolution.
+  Hypothesis step_up : forall x, x < delta r false x.
+  Hypothesis back_down : forall x, delta r true x < x.
+  Hypothesis step_back : forall x, delta r false (delta r true x) = x.
+
+  Definition window_assignment (init : Z) (c o : cell) : Prop :=
+    exists n, let g := iter n (delta r false) init in
+      ps o = g + 1 /\ pe o = delta r false g /\ g < ps c <= delta r false g /\ pe c <= delta r false g /\
+      ev o = ev c /\ cmeta o = cmeta c /\ cvals o = cvals c.
+
+  Theorem aggregate_period_spec origin prem cells out :
+    aggregate_period wavg rules nl (Some r) origin prem cells = Ok out ->
+    exists init relabelled,
+      (exists n, init = iter n (delta r false) origin \/ init = iter n (delta r true) origin) /\
+      Forall2 (window_assignment init) (sort_coords cells) relabelled /\
+      map_result (window_cell wavg rules nl prem) (groupby coord_eqb coord3 relabelled) = Ok out.
+  Proof.
+    unfold aggregate_period. pose proof (sort_coords_ps_nondecr cells) as Hs.
+    destruct (sort_coords cells) as [|c0 rest] eqn:Esort; [discriminate|].
+    set (fuel := walk_fuel origin (ps c0) (zmax_list (ps c0) (map ps (c0 :: rest)))).
+    destruct (align_spec _ _ step_up back_down step_back fuel origin (ps c0) (walk_fuel_enough _ _ _))
+      as (init & n & Ea & Orb & A & B).
+    rewrite Ea. destruct (relabel (delta r false) fuel init (c0 :: rest)) as [relabelled|] eqn:Er; [|discriminate].
+    intros H. exists init, relabelled. split; [eauto|]. split; [|exact H].
+    apply (relabel_windows _ step_up fuel _ _ _ Er Hs).
+    intros c [<-|Hc]; [exact A|]. pose proof (ps_nondecr_head _ _ Hs c Hc). lia.
+  Qed.
+
+  (* where an error of _aggregate_period can come from: the empty slice (IndexError), a period
+     reaching beyond its window (TriangleError), summarising a group, or -- model only -- fuel
+     exhaustion in the per-cell advance loop (the alignment loops provably never exhaust it) *)
+  Theorem aggregate_period_errors origin prem cells e :
+    aggregate_period wavg rules nl (Some r) origin prem cells = Err e ->
+    (e = IndexError /\ cells = []) \/ e = TriangleError \/ e = OtherError \/
+    (exists relabelled, map_result (window_cell wavg rules nl prem) (groupby coord_eqb coord3 relabelled) = Err e).
+  Proof.
+    unfold aggregate_period. destruct (sort_coords cells) as [|c0 rest] eqn:Esort.
+    - intros H. inversion H. left. split; [reflexivity|]. destruct cells as [|x l]; [reflexivity|].
+      exfalso. assert (In x (sort_coords (x :: l))) as Hx by (apply sort_coords_In; now left).
+      rewrite Esort in Hx. destruct Hx.
+    - set (fuel := walk_fuel origin (ps c0) (zmax_list (ps c0) (map ps (c0 :: rest)))).
+      destruct (align_spec _ _ step_up back_down step_back fuel origin (ps c0) (walk_fuel_enough _ _ _))
+        as (init & n & Ea & _). rewrite Ea.
+      destruct (relabel (delta r false) fuel init (c0 :: rest)) as [relabelled|e'] eqn:Er.
+      + intros H. right. right. right. eauto.
+      + intros H. inversion H. subst e'. destruct (relabel_err _ _ _ _ _ Er) as [->| ->]; auto.
+  Qed.
+End PeriodSpec.
+
+(* ================================================================== 8. incremental triangles, evaluation-only *)
+Theorem aggregate_incremental wavg rules nl a t :
+  is_incremental t = true ->
+  aggregate wavg rules nl a t
+  = bind (to_cumulative std_desc t) (fun cum => bind (aggregate wavg rules nl a cum) (to_incremental std_desc))
+  \/ exists cum, to_cumulative std_desc t = Ok cum /\ is_incremental cum = true.
+Proof.
+  intros Hi. unfold aggregate at 1. rewrite Hi.
+  destruct (to_cumulative std_desc t) as [cum|e] eqn:Ec; cbn [bind]; [|now left].
+  destruct (is_incremental cum) eqn:Ei; [right; eauto|]. left. unfold aggregate. now rewrite Ei.
+Qed.
+Theorem aggregate_eval_only wavg rules nl a slice :
+  period_res a = None ->
+  aggregate_slice wavg rules nl a slice = aggregate_eval (eval_res a) (eval_origin a) slice.
+Proof.
+  intros Hp. unfold aggregate_slice. destruct (aggregate_eval (eval_res a) (eval_origin a) slice); [|reflexivity].
+  unfold aggregate_period. now rewrite Hp.
+Qed.
+Theorem aggregate_eval_filters r origin c0 cells out :
+  aggregate_eval (Some r) origin (c0 :: cells) = Ok out ->
+  exists valid, valid_evals r origin (zmin_list (ev c0) (map ev (c0 :: cells))) (zmax_list (ev c0) (map ev (c0 :: cells))) = Some valid /\
+                out = filter (fun c => existsb (Z.eqb (ev c)) valid) (c0 :: cells).
+Proof.
+  unfold aggregate_eval. destruct (valid_evals _ _ _ _) as [valid|]; [|discriminate].
+  intros H. inversion H. eauto.
+Qed.
